@@ -1,6 +1,6 @@
 /-
-Progress of `scheduler.api.assign` (C03): an iteration of the controller loop entered (under FIFO
-delivery) with something computable and nothing ongoing yields at least one assignment before
+Progress of `scheduler.api.assign` (C03): an iteration of the controller loop entered (after ANY history
+of event deliveries) with something computable and nothing ongoing yields at least one assignment before
 `assign()` returns (`sP_progress : ProgressStmt f j cl cm`).
 
 Proof: at the entry state pick a *universal* idle worker `g` (a GPU worker if some task needs a
@@ -393,7 +393,7 @@ theorem sP_step (f : Sem) (j : Job) (cl : Cluster) (cm : Comps) (c0 : Ctl) (w0 :
 theorem sP_step_todo (f : Sem) (j : Job) (cl : Cluster) (cm : Comps) (y z : SysX) (st : StepX)
     (hph : y.sys.phase = .assigning) (hne : y.sys.todo ≠ []) (hs : stepX f j cl cm y st = some z) :
     z.sys.phase = .crashed ∨ z.sys.todo ≠ [] := by
-  rcases sF_stepX_proj f j cl cm y z st hs with h | ⟨bst, _, hb⟩
+  rcases sL_stepX_proj f j cl cm y z st hs with h | ⟨bst, _, hb⟩
   · right; rw [h]; exact hne
   · rcases sP_base_step f j cl y.sys z.sys bst hph hb with h | ⟨l, hl, h⟩ | ⟨ht, _, _⟩
     · exact Or.inl h
@@ -417,10 +417,11 @@ theorem sP_star (f : Sem) (j : Job) (cl : Cluster) (cm : Comps) (c0 : Ctl) (w0 :
 
 /-! ### the entry state -/
 
-/-- **KEY LEMMA (FIFO)**: with nothing in flight, a component that still has an undispatched task has a
+/-- **KEY LEMMA** (any event order, thanks to `hDA`: a completed task has all its outputs announced): with nothing in flight, a component that still has an undispatched task has a
 computable task -/
 theorem sP_undisp_has_computable (j : Job) (cl : Cluster) (cm : Comps) (s : Sys) (wf : WF j cl) (wfc : WFC j cm)
-    (h1 : Inv1 cl s) (hF : InvFifo j cl s) (hnofl : ∀ w t, ¬ s.inFlight w t) (c : Nat) :
+    (h1 : Inv1 cl s) (hF : InvLive j cl s)
+    (hDA : ∀ t, s.ctl.doneC t = true → ∀ k, k < j.nOut t → s.ctl.announced ⟨t, k⟩ = true) (hnofl : ∀ w t, ¬ s.inFlight w t) (c : Nat) :
     ∀ n, ∀ t, t < n → t < j.tasks.length → cm.compOf t = c → s.ctl.dispatched t = 0 →
       ∃ t', t' ∈ s.ctl.computable ∧ cm.compOf t' = c := by
   intro n
@@ -439,20 +440,21 @@ theorem sP_undisp_has_computable (j : Job) (cl : Cluster) (cm : Comps) (s : Sys)
         rcases hF.disp_flight_or_done ds.task hd1 with ⟨w, hw⟩ | hdone
         · exact hnofl w ds.task hw
         · have h3 : s.ctl.announced ⟨ds.task, ds.out⟩ = true :=
-            hF.done_announced ds.task hdone ds.out (wf.outs t ds hin)
+            hDA ds.task hdone ds.out (wf.outs t ds hin)
           have h4 : (⟨ds.task, ds.out⟩ : Ds) = ds := rfl
           rw [h4, hann] at h3
           cases h3
       · exact ih ds.task (by omega) (by omega) hcs (by omega)
 
 theorem sP_weight_has_computable (f : Sem) (j : Job) (cl : Cluster) (cm : Comps) (x : SysX) (wf : WF j cl) (wfc : WFC j cm)
-    (hX : InvX f j cl cm x) (hF : InvFifo j cl x.sys) (hnofl : ∀ w t, ¬ x.sys.inFlight w t) (c : Nat)
+    (hX : InvX f j cl cm x) (hF : InvLive j cl x.sys)
+    (hDA : ∀ t, x.sys.ctl.doneC t = true → ∀ k, k < j.nOut t → x.sys.ctl.announced ⟨t, k⟩ = true) (hnofl : ∀ w t, ¬ x.sys.inFlight w t) (c : Nat)
     (hw : x.sch.weight c > 0) : ∃ t, t ∈ x.sys.ctl.computable ∧ cm.compOf t = c := by
   rw [hX.hS.weight_eq c] at hw
   unfold undispatched at hw
   obtain ⟨t, ht⟩ := List.exists_mem_of_length_pos hw
   simp only [List.mem_filter, Job.taskIds, List.mem_range, Bool.and_eq_true, beq_iff_eq] at ht
-  exact sP_undisp_has_computable j cl cm x.sys wf wfc hX.hA.h1 hF hnofl c (t + 1) t (by omega) ht.1 ht.2.1 ht.2.2
+  exact sP_undisp_has_computable j cl cm x.sys wf wfc hX.hA.h1 hF hDA hnofl c (t + 1) t (by omega) ht.1 ht.2.1 ht.2.2
 
 /-- a computable task makes the weight of its component positive -/
 theorem sP_computable_weight (f : Sem) (j : Job) (cl : Cluster) (cm : Comps) (x : SysX) (wfc : WFC j cm)
@@ -468,11 +470,12 @@ theorem sP_computable_weight (f : Sem) (j : Job) (cl : Cluster) (cm : Comps) (x 
 
 /-- the entry facts -/
 theorem sP_entry (f : Sem) (j : Job) (cl : Cluster) (cm : Comps) (x : SysX) (wf : WF j cl) (wfc : WFC j cm)
-    (feas : Feasible j cl) (hr : ReachableFifo f j cl cm x) (hph : x.sys.phase = .top)
+    (feas : Feasible j cl) (hr : ReachableX f j cl cm x) (hph : x.sys.phase = .top)
     (hcomp : x.sys.ctl.hasComputable = true) (hong : x.sys.ctl.ongoing = []) :
     ∃ g, sP_Entry j cl cm x.sys.ctl x.sch.weight g := by
-  have hX := invX_reachable f j cl cm wf wfc x (sF_reachableFifo_X f j cl cm x hr)
-  have hF := sF_reachable f j cl cm x wf hr
+  have hX := invX_reachable f j cl cm wf wfc x hr
+  have hF := sL_reachableX f j cl cm wf x hr
+  have hDA := sL_done_announced f j cl wf x.sys (sL_reachableX_base f j cl cm x hr)
   have htodo : x.sys.todo = [] := hX.hA.h1.todo_phase (by simp [hph]) (by simp [hph]) (by simp [hph])
   have hnofl : ∀ w t, ¬ x.sys.inFlight w t := by
     intro w t h
@@ -486,7 +489,7 @@ theorem sP_entry (f : Sem) (j : Job) (cl : Cluster) (cm : Comps) (x : SysX) (wf 
     simp only [Ctl.hasComputable, gt_iff_lt, decide_eq_true_eq] at hcomp
     obtain ⟨t, ht⟩ := List.exists_mem_of_length_pos hcomp
     exact ⟨cm.compOf t, sP_computable_weight f j cl cm x wfc hX t ht⟩
-  have hkey := sP_weight_has_computable f j cl cm x wf wfc hX hF hnofl
+  have hkey := sP_weight_has_computable f j cl cm x wf wfc hX hF hDA hnofl
   by_cases hg : ∃ t, t < j.tasks.length ∧ j.gpu t = true
   · obtain ⟨g, hgi, hgg⟩ := feas.gpu hg
     exact ⟨g, hidle g hgi, fun _ _ _ => hgg, hkey, hsome⟩
